@@ -342,6 +342,50 @@ theorem path_selection (a : Args) (h : Path.templateCheck (templateUri a) = true
 example : selectPath ⟨none, some "/d/t.html".toList, some "/t.html".toList, some "/m".toList, none, []⟩ =
     .fileModule "/m/t.html.py".toList := by decide +kernel
 
+/-- **The directories of a lookup are searched in configuration order**: whatever the iteration order of sets
+(`iter`), `get_template(uri)` serves the file under the first *configured* directory that contains it – every
+directory configured before it does not – so a URI shadowed in several directories resolves the same way under
+every PYTHONHASHSEED (and listing a directory twice changes nothing). -/
+theorem directory_order_is_configuration_order (configured iter : List Str) (isFile : Str → Bool) (uri : Str) :
+    lookupFile configured iter isFile uri = searchDirs (configured.map Path.normpath) isFile uri ∧
+    (∀ f, lookupFile configured iter isFile uri = some f →
+      ∃ pre d post, configured = pre ++ d :: post ∧ f = Path.uriToSrc (Path.normpath d) uri ∧ isFile f = true ∧
+        ∀ e ∈ pre, isFile (Path.uriToSrc (Path.normpath e) uri) = false) ∧
+    (lookupFile configured iter isFile uri = none ↔
+      ∀ d ∈ configured, isFile (Path.uriToSrc (Path.normpath d) uri) = false) := by
+  have hk : Generated.Paths8.directoriesKeepOrder = true := rfl
+  have h0 : lookupFile configured iter isFile uri = searchDirs (configured.map Path.normpath) isFile uri := by
+    simp [lookupFile, lookupDirs, hk]
+  refine ⟨h0, ?_, ?_⟩
+  · rw [h0]
+    intro f hf
+    simp only [searchDirs, List.map_map] at hf
+    clear h0
+    induction configured with
+    | nil => simp at hf
+    | cons a r ih =>
+      simp only [List.map_cons, List.find?_cons] at hf
+      cases hfa : isFile ((fun d => Path.uriToSrc d uri) (Path.normpath a)) with
+      | true =>
+        simp only [Function.comp, hfa] at hf
+        injection hf with hf
+        exact ⟨[], a, r, rfl, hf.symm, hf ▸ hfa, by simp⟩
+      | false =>
+        simp only [Function.comp, hfa] at hf
+        obtain ⟨pre, d, post, hc, hfd, hif, hpre⟩ := ih hf
+        refine ⟨a :: pre, d, post, by rw [hc]; rfl, hfd, hif, ?_⟩
+        intro e he
+        rcases List.mem_cons.mp he with rfl | he
+        · exact hfa
+        · exact hpre e he
+  · rw [h0]
+    simp only [searchDirs, List.find?_eq_none, List.mem_map, forall_exists_index, and_imp, forall_apply_eq_imp_iff₂,
+      Bool.not_eq_true]
+
+example : lookupFile ["/over/".toList, "/base".toList, "/over".toList] ["/base".toList, "/over".toList]
+    (fun f => f = "/base/x.html".toList || f = "/over/x.html".toList || f = "/base/y.html".toList) "/x.html".toList =
+    some "/over/x.html".toList := by decide
+
 /-! ## the `ModuleInfo` registry -/
 
 /- OPEN (F5): `Template.source` / `Template.code` return the template's own text for all live templates with
